@@ -6,7 +6,7 @@ From Sismic Require Import Base Chart Interp World Spec.
 From SismicProofs Require Import C17Proofs.
 From SismicProofs Require CorollaryProofs.
 From Sismic Require Import Edit Copy.
-From SismicProofs Require EditProofs CopyProofs WrapProofs.
+From SismicProofs Require EditProofs CopyProofs WrapProofs C17ComposeProofs.
 Import ListNotations.
 Open Scope string_scope.
 
@@ -555,3 +555,189 @@ Theorem wrap_okb_sound_thm :
   forall (c : chart) (r h : name), WrapProofs.wrap_okb c r h = true -> WrapProofs.wrap_ok c r h.
 Proof. exact WrapProofs.wrap_okb_sound. Qed.
 Print Assumptions wrap_okb_sound_thm.
+
+(* COMPOSITION. For the host the check uses (hroot > plug): what copy_from_statechart builds is the wrapped, renamed guest - equal for every query (state_for, parent_for, children_for in the same order, root), equivalent up to the order of dictionary entries and of the transition list (chart_equiv) *)
+Theorem copy_into_plug_is_wrap_thm :
+  forall (g : chart) (r : name) (rho : list (name * name)) (nm : string) (d : option string)
+           (pre : option code),
+         EditProofs.einv g ->
+         root g = Some r ->
+         r = "plug" \/ has_state g "plug" = false ->
+         (forall n : name,
+          In n (descendants_for g r) -> rho_apply rho n <> "hroot" /\ rho_apply rho n <> "plug") ->
+         (forall n : name, In n (descendants_for g r) -> rho_apply rho n <> "") ->
+         NoDup (map (rho_apply rho) (descendants_for g r)) ->
+         (forall n : name,
+          In n (descendants_for g r) -> rho_apply rho n = n \/ has_state g (rho_apply rho n) = false) ->
+         (forall (n p : name) (sp sn : state),
+          In n (descendants_for g r) ->
+          lookup n (c_parent g) = Some (Some p) ->
+          lookup p (c_states g) = Some sp ->
+          lookup n (c_states g) = Some sn ->
+          is_composite (s_kind sp) = true /\ (is_history (s_kind sn) = true -> s_kind sp = KCompound)) ->
+         exists (h' : chart) (idxs : list nat),
+           copy_from_statechart (C17ComposeProofs.plug_host nm d pre) g r "plug" rho = (h', EOk) /\
+           C17ComposeProofs.chart_equiv (WrapProofs.wrap (map_chart (CopyProofs.rs g r "plug" rho) g) "hroot")
+             h' idxs /\
+           c_name h' = nm /\
+           c_description h' = d /\
+           c_preamble h' = pre /\
+           (exists g2 : chart,
+              EditProofs.einv g2 /\
+              CopyProofs.img (CopyProofs.rs g r "plug" rho) g g2 /\
+              idxs = collect_transitions g2 ("plug" :: descendants_for g2 "plug") []).
+Proof. exact C17ComposeProofs.copy_into_plug_is_wrap. Qed.
+Print Assumptions copy_into_plug_is_wrap_thm.
+
+(* ... the transition lists are NOT equal: the copy lists the transitions in another order (witness) *)
+Theorem copy_into_plug_same_transitions_refuted_thm :
+  exists (g : chart) (r : name) (table : list (name * name)),
+           (EditProofs.einv g /\
+            root g = Some r /\
+            (r = "plug" \/ has_state g "plug" = false) /\
+            (forall n : name,
+             In n (descendants_for g r) -> rho_apply table n <> "hroot" /\ rho_apply table n <> "plug") /\
+            (forall n : name, In n (descendants_for g r) -> rho_apply table n <> "") /\
+            NoDup (map (rho_apply table) (descendants_for g r)) /\
+            (forall n : name,
+             In n (descendants_for g r) -> rho_apply table n = n \/ has_state g (rho_apply table n) = false) /\
+            (forall (n p : name) (sp sn : state),
+             In n (descendants_for g r) ->
+             lookup n (c_parent g) = Some (Some p) ->
+             lookup p (c_states g) = Some sp ->
+             lookup n (c_states g) = Some sn ->
+             is_composite (s_kind sp) = true /\ (is_history (s_kind sn) = true -> s_kind sp = KCompound))) /\
+           (exists h' : chart,
+              copy_from_statechart (C17ComposeProofs.plug_host "host" None None) g r "plug" table = (h', EOk) /\
+              c_transitions h' <>
+              c_transitions (WrapProofs.wrap (map_chart (CopyProofs.rs g r "plug" table) g) "hroot")).
+Proof. exact C17ComposeProofs.ComposeExample.copy_into_plug_same_transitions_refuted. Qed.
+Print Assumptions copy_into_plug_same_transitions_refuted_thm.
+
+(* renaming and embedding composed (exact equalities): the wrapped, renamed guest started afresh enters the new root first and then produces the image of every outcome of the guest alone *)
+Theorem C17_wrap_rename_run_thm :
+  forall rho : name -> name,
+         (forall a b : name, rho a = rho b -> a = b) ->
+         rho "" = "" ->
+         forall g : chart,
+         (forall a b : name, inN g a -> inN g b -> str_leb (rho a) (rho b) = str_leb a b) ->
+         forall r h : name,
+         WrapProofs.wrap_ok (map_chart rho g) (rho r) h ->
+         r <> "" ->
+         forall (ctx X X' : Type) (exec_g exec_h : call ctx -> ctx -> option (ctx * list event))
+           (eval_g eval_h : call ctx -> ctx -> option bool) (emit_g : Z -> meta -> X -> X * option err)
+           (emit_h : Z -> meta -> X' -> X' * option err) (fx : X -> X'),
+         (forall (cl : call ctx) (x : ctx), exec_h (WrapProofs.wrap_call h (map_call rho cl)) x = exec_g cl x) ->
+         (forall (cl : call ctx) (x : ctx), eval_h (WrapProofs.wrap_call h (map_call rho cl)) x = eval_g cl x) ->
+         (forall (t : Z) (m : meta) (x : X),
+          emit_h t (map_meta rho m) (fx x) =
+          (fx (fst (emit_g t m x)), option_map (map_err rho) (snd (emit_g t m x)))) ->
+         (forall (t : Z) (x : X'), emit_h t (MEntered h) x = (x, None)) ->
+         forall (fuel : nat) (now : Z) (s0 : mstate ctx X) (m1 : option macrostep) 
+           (fuel' : nat) (ops : list op),
+         C17ComposeProofs.guest_init ctx X s0 ->
+         snd (execute_once ctx X exec_g eval_g emit_g g fuel now s0) = inl m1 ->
+         let s1 := fst (execute_once ctx X exec_g eval_g emit_g g fuel now s0) in
+         let rg := run_ops ctx X exec_g eval_g emit_g g fuel' ops s1 in
+         Forall WrapProofs.is_inl (removelast (snd rg)) ->
+         execute_once ctx X' exec_h eval_h emit_h (WrapProofs.wrap (map_chart rho g) h) 
+           (S fuel) now (C17ComposeProofs.host_init rho h ctx X X' fx s0) =
+         (C17ComposeProofs.host_image rho h ctx X X' fx now s0 s1,
+          inl (WrapProofs.add_h h (option_map (map_macro rho) m1))) /\
+         run_ops ctx X' exec_h eval_h emit_h (WrapProofs.wrap (map_chart rho g) h) fuel' ops
+           (C17ComposeProofs.host_image rho h ctx X X' fx now s0 s1) =
+         (C17ComposeProofs.host_image rho h ctx X X' fx now s0 (fst rg), map (map_outcome rho) (snd rg)).
+Proof. exact C17ComposeProofs.C17_wrap_rename_run. Qed.
+Print Assumptions C17_wrap_rename_run_thm.
+
+(* the run of the host built by copy_from_statechart: copy structure + declaration-order invariance (C07) + renaming + embedding; outcomes related up to the renaming of transition indices, states up to the order-insensitive relation of C07 (run_equiv); stops at the first exception *)
+Theorem C17_copy_run_thm :
+  forall (g : chart) (r : name) (table : list (name * name)) (nm : string) (d : option string)
+           (pre : option code),
+         EditProofs.einv g ->
+         root g = Some r ->
+         r = "plug" \/ has_state g "plug" = false ->
+         (forall n : name,
+          In n (descendants_for g r) -> rho_apply table n <> "hroot" /\ rho_apply table n <> "plug") ->
+         (forall n : name, In n (descendants_for g r) -> rho_apply table n <> "") ->
+         NoDup (map (rho_apply table) (descendants_for g r)) ->
+         (forall n : name,
+          In n (descendants_for g r) -> rho_apply table n = n \/ has_state g (rho_apply table n) = false) ->
+         (forall (n p : name) (sp sn : state),
+          In n (descendants_for g r) ->
+          lookup n (c_parent g) = Some (Some p) ->
+          lookup p (c_states g) = Some sp ->
+          lookup n (c_states g) = Some sn ->
+          is_composite (s_kind sp) = true /\ (is_history (s_kind sn) = true -> s_kind sp = KCompound)) ->
+         forall rho : name -> name,
+         (forall a b : name, rho a = rho b -> a = b) ->
+         rho "" = "" ->
+         (forall n : name, In n (all_occ g) -> rho n = CopyProofs.rs g r "plug" table n) ->
+         (forall a b : name, inN g a -> inN g b -> str_leb (rho a) (rho b) = str_leb a b) ->
+         WrapProofs.wrap_ok (map_chart rho g) (rho r) "hroot" ->
+         forall (ctx X X' : Type) (exec_g exec_h : call ctx -> ctx -> option (ctx * list event))
+           (eval_g eval_h : call ctx -> ctx -> option bool) (emit_g : Z -> meta -> X -> X * option err)
+           (emit_h : Z -> meta -> X' -> X' * option err) (fx : X -> X'),
+         (forall (cl : call ctx) (x : ctx),
+          exec_h (WrapProofs.wrap_call "hroot" (map_call rho cl)) x = exec_g cl x) ->
+         (forall (cl : call ctx) (x : ctx),
+          eval_h (WrapProofs.wrap_call "hroot" (map_call rho cl)) x = eval_g cl x) ->
+         (forall (t : Z) (m : meta) (x : X),
+          emit_h t (map_meta rho m) (fx x) =
+          (fx (fst (emit_g t m x)), option_map (map_err rho) (snd (emit_g t m x)))) ->
+         (forall (t : Z) (x : X'), emit_h t (MEntered "hroot") x = (x, None)) ->
+         (forall (pi : nat -> nat) (cl : call ctx) (x : ctx), exec_h (C07Proofs.cmap pi cl) x = exec_h cl x) ->
+         (forall (pi : nat -> nat) (cl : call ctx) (x : ctx), eval_h (C07Proofs.cmap pi cl) x = eval_h cl x) ->
+         (forall (t : Z) (m : meta) (x : X') (e : err),
+          snd (emit_h t m x) = Some e -> forall pi : nat -> nat, C07Proofs.emap pi e = e) ->
+         exists (h' : chart) (idxs : list nat),
+           copy_from_statechart (C17ComposeProofs.plug_host nm d pre) g r "plug" table = (h', EOk) /\
+           Permutation.Permutation idxs (seq 0 (Datatypes.length (c_transitions g))) /\
+           C17ComposeProofs.chart_equiv (WrapProofs.wrap (map_chart rho g) "hroot") h' idxs /\
+           (let pi := C17ComposeProofs.pi_of idxs (Datatypes.length (c_transitions g)) in
+            forall (id : nat) (t0 : Z) (ign : bool) (c0 : ctx) (x : X) (fuel : nat) 
+              (now : Z) (m1 : option macrostep) (fuel' : nat) (ops : list op),
+            let s0 := {| m_i := init_istate id t0 ign c0; m_x := x; m_tr := [] |} in
+            snd (execute_once ctx X exec_g eval_g emit_g g fuel now s0) = inl m1 ->
+            let s1 := fst (execute_once ctx X exec_g eval_g emit_g g fuel now s0) in
+            let rg := run_ops ctx X exec_g eval_g emit_g g fuel' ops s1 in
+            Forall WrapProofs.is_inl (removelast (snd rg)) ->
+            let oh :=
+              execute_once ctx X' exec_h eval_h emit_h h' (S fuel) now
+                {| m_i := init_istate id t0 ign c0; m_x := fx x; m_tr := [] |} in
+            let rh := run_ops ctx X' exec_h eval_h emit_h h' fuel' ops (fst oh) in
+            snd oh = inl (C07Proofs.macmap pi (WrapProofs.add_h "hroot" (option_map (map_macro rho) m1))) /\
+            C07Proofs.run_equiv pi (C17ComposeProofs.host_image rho "hroot" ctx X X' fx now s0 s1) (fst oh) /\
+            Forall2 (C17ComposeProofs.out_rel pi) (map (map_outcome rho) (snd rg)) (snd rh) /\
+            (Forall WrapProofs.is_inl (snd rg) ->
+             C07Proofs.run_equiv pi (C17ComposeProofs.host_image rho "hroot" ctx X X' fx now s0 (fst rg))
+               (fst rh))).
+Proof. exact C17ComposeProofs.C17_copy_run. Qed.
+Print Assumptions C17_copy_run_thm.
+
+(* the global injective renaming those theorems take as a parameter exists under the hypotheses of the copy theorem *)
+Theorem copy_renaming_extends_thm :
+  forall (g : chart) (r : name) (table : list (name * name)),
+         string ->
+         option string ->
+         option code ->
+         EditProofs.einv g ->
+         root g = Some r ->
+         r = "plug" \/ has_state g "plug" = false ->
+         (forall n : name,
+          In n (descendants_for g r) -> rho_apply table n <> "hroot" /\ rho_apply table n <> "plug") ->
+         (forall n : name, In n (descendants_for g r) -> rho_apply table n <> "") ->
+         NoDup (map (rho_apply table) (descendants_for g r)) ->
+         exists rho : string -> string,
+           (forall a b : string, rho a = rho b -> a = b) /\
+           rho "" = "" /\ (forall n : name, In n (all_occ g) -> rho n = CopyProofs.rs g r "plug" table n).
+Proof. exact C17ComposeProofs.copy_renaming_extends. Qed.
+Print Assumptions copy_renaming_extends_thm.
+
+(* the hypotheses of the embedding theorems follow from DESIGN.md section 2 (wf_chart_b) plus explicit extra clauses (wrap_extra_b: every referenced name registered, the root neither final nor history and without final child, the new root fresh and non-empty) *)
+Theorem wrap_ok_of_wf_b_thm :
+  forall (c : chart) (r h : name),
+         C02Proofs.wf_chart_b c = true ->
+         root c = Some r -> C17ComposeProofs.wrap_extra_b c r h = true -> WrapProofs.wrap_ok c r h.
+Proof. exact C17ComposeProofs.wrap_ok_of_wf_b. Qed.
+Print Assumptions wrap_ok_of_wf_b_thm.
